@@ -94,7 +94,7 @@ theorem size_arrows_cons (M : Model) (A : Ty) (As : List Ty) (B : Ty) :
 
 /-- iterated `appCode` -/
 def appN (M : Model) (c : Nat) : List Ty → Ty → List Nat → Nat
-  | A :: As, B, v :: vs => appN M (appCode c v (M.size (arrows As B))) As B vs
+  | _ :: As, B, v :: vs => appN M (appCode c v (M.size (arrows As B))) As B vs
   | _, _, _ => c
 
 /-- the code of the curried function `vs ↦ F vs` of type `arrows As B` -/
